@@ -48,7 +48,8 @@ def handle (cmd : String) (args : List String) : Option String :=
   | "sq", srv :: route :: hx :: p :: ps =>
     let prepOk (t : String) : Bool :=
       match t.splitOn ":" with
-      | [sv, h] => (sv == "i" || sv == "q") && h ≠ "" && (hexBytes? h).isSome
+      | [sv, h] => ((sv == "i" || sv == "q") && h ≠ "" && (hexBytes? h).isSome) ||
+          (sv == "w" && (match h.toNat? with | some n => decide (n ≤ 20000) | none => false))
       | _ => false
     some (if (srv == "i" || srv == "q") && routeIdOk route && hx ≠ "" && (hexBytes? hx).isSome && (p :: ps).all prepOk then "ok" else "bad-op")
   | "ws", [route, hx] =>
